@@ -161,6 +161,18 @@ Section WithPython.
      every node the payload emitted is what wrp makes of what rdp read *)
   Theorem tables_v_no_silent_loss : forall d e d', vparse d = Some e -> vemit e = Some d' -> vsame d d'.
   Proof. exact (pparse_loses_nothing vP vQ nstate elem_start nfeed nfin nord vrdp vwrp (elem_perm Hok)). Qed.
+  (* the library's own output: an element tree (built through the API or by the parser) that is structurally consistent and whose every stored value
+     has a str() that its own ladder reads back to a value with the same str(): whatever to_string emits from it is parsed to an element tree that
+     emits the same document - structure, texts and attributes *)
+  Definition gokq : positive -> vQ -> Prop := okv pstr pyval [] render gLtext gLattr.
+  Definition velt_ok : pelt vQ nstate -> Prop := pelt_ok vQ nstate elem_start nord elem_okst gokq.
+  Theorem tables_emitted_values_roundtrip : forall e d, velt_ok e -> vemit e = Some d -> exists e', vparse d = Some e' /\ vemit e' = Some d.
+  Proof.
+    apply (pemitted_roundtrips vP vQ nstate elem_start nfeed nfin nord elem_lang elem_okst vrdp vwrp gLp gokq (elem_good Hok)).
+    - intros tag p. apply (vgood pstr pyval [] vrd_text vrd_attr render vreq vneeds gLtext gLattr); auto.
+    - apply (elem_sound Hok).
+    - intros tag q p. apply (vsound pstr pyval [] render vreq vneeds gLtext gLattr).
+  Qed.
   End WithRows.
   (* ... and what that means for one node whose attribute names are pairwise distinct (as XML guarantees): the text emitted is str() of the value
      the constructor accepted for the file's text, the attributes emitted are exactly the file's, in file order, each with str() of the value
